@@ -1,5 +1,5 @@
 (* Proofs about Model/Prices.v. *)
-From LedgerV Require Import Base.Prelude Gen.PriceMemo Gen.CostDate Gen.PercentExpr Model.Prices.
+From LedgerV Require Import Base.Prelude Gen.PriceMemo Gen.CostDate Gen.PercentExpr Gen.FindPriceDispatch Model.Prices.
 From Coq Require Import Permutation.
 Local Open Scope Z_scope.
 
@@ -678,7 +678,11 @@ Lemma value_X_spec g prim a t D :
        | Some p => Some (Qred (pq p * hq a), pc p)
        | None => None
        end.
-Proof. reflexivity. Qed.
+Proof.
+  unfold value, lookup. cbn [negb]. ceq (hc a) t.
+  - rewrite E. reflexivity.
+  - destruct find_price_dispatch_on_target; reflexivity.
+Qed.
 
 Lemma value_exact g prim a t D q c :
   hc a <> t -> value g prim a (Some t) D = Some (q, c) ->
@@ -862,7 +866,7 @@ Lemma bal_row_memo_plain l held t D :
 Proof.
   unfold bal_row_memo, bal_row, convert_all.
   assert (Hok : memo_ok (mkState [] [])) by (intros owner D' t' r; cbn; discriminate).
-  rewrite (convert_all_memo_plain held _ t D (prims (history_of (items_of l))) [] (load_ok l _ Hok)).
+  rewrite (convert_all_memo_plain held _ t D (mkCtx (prims (history_of (items_of l))) (default_of (items_of l) None)) [] (load_ok l _ Hok)).
   rewrite (load_graph l _ Hok). reflexivity.
 Qed.
 
@@ -976,4 +980,54 @@ Lemma percent_row_quotient l held pheld t D cn qn cd qd :
 Proof.
   intros Hn Hd. rewrite percent_row_same_rule, Hn, Hd. cbn [percent_of].
   eexists. split; [reflexivity | apply Qred_correct].
+Qed.
+
+(* ------------------------------------------------------------------ -V and the default commodity *)
+(* the source fact (regenerated from commodity.cc): find_price dispatches on the defaulted
+   `target`, not on the commodity it was asked for *)
+Lemma dispatch_on_target :
+  find_price_dispatch_recognised = true /\ find_price_dispatch_on_target = true.
+Proof. split; reflexivity. Qed.
+
+Lemma lookup_spec g dflt src commodity D :
+  lookup g dflt src commodity D =
+  match (match commodity with Some c => Some c | None => dflt end) with
+  | Some t => find_price g src t D
+  | None => find_price_any g src D
+  end.
+Proof.
+  unfold lookup. rewrite (proj2 dispatch_on_target).
+  destruct (match commodity with Some c => Some c | None => dflt end) as [t|]; [|reflexivity].
+  ceq src t; [|reflexivity]. subst. unfold find_price. rewrite comm_eqb_refl. reflexivity.
+Qed.
+
+(* -V with a default commodity T values an unannotated, non-primary amount exactly as -X T does
+   (an amount of T itself is left alone either way) *)
+Lemma value_V_default g prims t a D :
+  mem (hc a) prims = false -> hlot a = None -> hc a <> t ->
+  value g (mkCtx prims (Some t)) a None D = value g (mkCtx prims (Some t)) a (Some t) D.
+Proof.
+  intros Hp Hl Hne. rewrite value_X_spec. unfold value. cbn [v_prim v_dflt]. rewrite Hp, Hl. cbn [negb].
+  rewrite lookup_spec. apply comm_eqb_false in Hne. rewrite Hne. reflexivity.
+Qed.
+
+Lemma value_V_default_self g prims t a D :
+  hlot a = None -> hc a = t -> value g (mkCtx prims (Some t)) a None D = None.
+Proof.
+  intros Hl He. unfold value. cbn [v_prim v_dflt]. rewrite Hl.
+  destruct (negb (mem (hc a) prims)); [|reflexivity].
+  rewrite lookup_spec. subst t. unfold find_price. rewrite comm_eqb_refl. reflexivity.
+Qed.
+
+(* -V without a default commodity: the most recent neighbouring quote *)
+Lemma value_V_plain g prims a D :
+  mem (hc a) prims = false -> hlot a = None ->
+  value g (mkCtx prims None) a None D =
+  match find_price_any g (hc a) D with
+  | Some p => Some (Qred (pq p * hq a), pc p)
+  | None => None
+  end.
+Proof.
+  intros Hp Hl. unfold value. cbn [v_prim v_dflt]. rewrite Hp, Hl. cbn [negb].
+  rewrite lookup_spec. reflexivity.
 Qed.
